@@ -310,6 +310,36 @@ def rule_H3(ctx, sm):
                       'the first digit and do not advance once per cycle',
                       ctx.where(sm, n))
     ctx.need(n_c >= 5, f'only {n_c} stores of sc_cycle / lr_cycle found')
+    # `True` asks for the cycling pattern, the integer 1 (4) for a FIXED
+    # direction, and 1 == True in Python: the branch for the cycling pattern
+    # must be entered for True only (identity, not equality / membership)
+    for meth, attr in (('_semicoarsening', 'semicoarsening'),
+                       ('_linerelaxation', 'linerelaxation')):
+        fn_ = sm.method('MGParameters', meth)
+        arms = [n for n in ast.walk(fn_) if isinstance(n, ast.If) and any(
+            isinstance(st, ast.Assign) and 'itertools.cycle' in ast.unparse(
+                st.value) and 'np.array([1, 2, 3])' in ast.unparse(
+                    ast.Module(n.body, [])) + 'np.array([4, 5, 6])' * 0 or
+            isinstance(st, ast.Assign) and 'np.array([4, 5, 6])' in
+            ast.unparse(st.value) for st in n.body)]
+        ctx.anchor(len(arms) >= 1, f'cycling arm of {meth}')
+        test = arms[0].test
+        res = {}
+        for val in (True, 1, 4, 2):
+            try:
+                res[val if val is not True else 'True'] = bool(FiniteEval(
+                    {f'self.{attr}': val, 'np.True_': True,
+                     'np.bool_(True)': True}, where=sm.rel).ev(test))
+            except AnalysisError:
+                res[val if val is not True else 'True'] = None
+        ok = res['True'] is True and res[1] is False and res[4] is False \
+            and res[2] is False
+        ctx.check('C05.H2.sc_table' if attr == 'semicoarsening'
+                  else 'C05.H2.lr_table', f'{meth}: cycling only for True',
+                  ok, f'the test `{ast.unparse(test)}` for the cycling '
+                  f'pattern evaluates to {res}: an integer that equals True '
+                  '(1) must give the fixed direction, not the cycle',
+                  ctx.where(sm, arms[0]))
 
 
 def rule_H4_H5(ctx, sm):
